@@ -8,7 +8,7 @@ the archive extractor gets the obligation that its path argument is INSIDE the
 private temporary directory; ZIP/TAR paths have no file-system call at all
 (policy, from the AST); skip rules dominate every member dispatch.
 """
-import ast
+import os
 
 import z3
 
@@ -204,7 +204,13 @@ def policy(repo, tier):
     mods = {ARCH: loader.module(ARCH, repo), SEVEN: loader.module(SEVEN, repo)}
     arch, sv = mods[ARCH], mods[SEVEN]
     try:
-        conf = C09_flow.Confined(mods)
+        text = []
+        for other in loader.all_package_files(repo):
+            try:
+                text.append(open(os.path.join(repo or loader.REPO, other), encoding="utf-8").read())
+            except OSError:
+                pass
+        conf = C09_flow.Confined(mods, package_text="\n".join(text))
         sites = conf.fs_sites()
         blocks = conf.tempdir_blocks(ARCH)
         conf_err = ""
